@@ -39,8 +39,8 @@ MODELS = {
     },
     "Derive": {
         "module": "mc/MC_Derive.tla", "spec": "MCSpec", "view": "MCView",
-        "constants": {"quick": {"MaxBase": 2, "MaxFollow": 0, "MaxPairs": 1, "Tier": '"quick"'},
-                      "thorough": {"MaxBase": 2, "MaxFollow": 1, "MaxPairs": 2, "Tier": '"thorough"'}},
+        "constants": {"quick": {"MaxBase": 2, "MaxFollow": 0, "MaxPairs": 1, "Tier": '"quick"', "BaseMode": '"singles"'},
+                      "thorough": {"MaxBase": 2, "MaxFollow": 1, "MaxPairs": 2, "Tier": '"thorough"', "BaseMode": '"all"'}},
         "always": ["Inv_Struct"], "properties": ["P_C10"],
     },
     "Remap": {
@@ -61,9 +61,12 @@ PLAN = {
     "C04": [("Build", ["Inv_C04", "Inv_C04load"], {})],
     "C13": [("Build", ["Inv_C13"], {})],
     "C05": [("Incr", [], {})],
-    "C09": [("Derive", ["Inv_C09"], {"Ops": '{"chain", "sub"}'})],
-    "C12": [("Derive", ["Inv_C12"], {"Ops": '{"remap_uri", "rewire"}'})],
-    "C10": [("Derive", [], {"Ops": '{"chain", "sub", "remap_uri", "rewire"}', "MaxFollow": 1}), ("Remap", [], {"MaxRecs": 1})],
+    "C09": [("Derive", ["Inv_C09"], {"Ops": '{"chain", "sub"}'}),
+            ("Derive", ["Inv_C09"], {"Ops": '{"chain", "sub"}', "MaxBase": 1, "BaseMode": '"all"'})],
+    "C12": [("Derive", ["Inv_C12"], {"Ops": '{"remap_uri", "rewire"}', "MaxBase": 1, "BaseMode": '"all"'})],
+    "C10": [("Derive", [], {"Ops": '{"chain", "sub"}', "MaxFollow": 1}),
+            ("Derive", [], {"Ops": '{"chain", "sub", "remap_uri", "rewire"}', "MaxFollow": 1, "MaxBase": 1, "BaseMode": '"all"'}),
+            ("Remap", [], {"MaxRecs": 1})],
     "C11": [("Remap", ["Inv_C11"], {})],
 }
 
